@@ -17,26 +17,40 @@
 -/
 import RbpfModel.Lemmas.X86Sim.Entry
 import RbpfModel.Lemmas.X86Sim.EntryC
+import RbpfModel.Lemmas.X86Sim.EntryFixed
 import RbpfModel.Lemmas.X86Enc.Layout
 import RbpfModel.Lemmas.X86Enc.Targets
 import RbpfModel.Props.C03
 namespace Rbpf
 open Rbpf.JitSim Rbpf.JitEnc
 
+/-- packet, metadata buffer and registered ranges are the same in two memories (the private stack may differ) -/
+def SameData (a b : Memory) : Prop := a.mbuff = b.mbuff ∧ a.mem = b.mem ∧ a.extra = b.extra
+
+/-- the machine's memory holds exactly the packet, metadata and registered ranges of `m`, between its native frame and
+    the native stack below it -/
+def DataRel (xm : List Region) (m : Memory) : Prop :=
+  ∃ frame lower : Region, xm = frame :: m.mbuff :: m.mem :: (m.extra ++ [lower])
+
+theorem DataRel.of_memRel {xm : List Region} {a b : Memory} (h : MemRel xm a) (hs : SameData a b) : DataRel xm b := by
+  obtain ⟨frame, lower, hx, _⟩ := h
+  obtain ⟨h1, h2, h3⟩ := hs
+  exact ⟨frame, lower, by rw [hx, h1, h2, h3]⟩
+
 /-- C03's exclusion "results that depend on a never-written register", stated semantically: whatever r0, r2 … r9 hold
     at entry (compiled code does not zero them; the interpreter starts them at 0), the run returns the same value and
-    leaves the same memory -/
+    leaves the same packet, metadata and registered ranges -/
 def RegIndep (env : Env) (m : Memory) (fuel : Nat) : Prop :=
   ∀ s : State, s.pc = 0 → s.frames = [] → s.mem = m → s.log = [] →
     s.reg[1]? = (Interp.init m).reg[1]? → s.reg[10]? = (Interp.init m).reg[10]? →
     ∀ r0 a, EngineSem.jitRun env (Interp.init m) fuel = .done r0 a →
-      ∃ b, EngineSem.jitRun env s fuel = .done r0 b ∧ b.mem = a.mem
+      ∃ b, EngineSem.jitRun env s fuel = .done r0 b ∧ SameData b.mem a.mem
 
 /-- **machine code of the emitter model = interpreter.**  If the emitter model compiles `env.prog` to `c.code`, the
     program is covered, free of the F7 instructions, its jump targets are instruction starts, and its result does not
     depend on unwritten registers, then whenever the interpreter returns `r0`, the x86-64 machine entered at the first
     byte of `c.code` under the System V calling convention returns `r0` too, leaves packet, metadata and registered
-    ranges exactly as the interpreter leaves them (`MemRel`), and restores rbx, rbp, r13, r14, r15 and rsp. -/
+    ranges exactly as the interpreter leaves them (`DataRel`), and restores rbx, rbp, r13, r14, r15 and rsp. -/
 theorem C03_x86 (env : Env) (haddr : Nat → Option Nat) (um : Bool) (c : X86.Cfg) (locs : Array Nat) (ex : Nat)
     (m : Memory) (σ : X86.St) (fuel : Nat) (r0 : BitVec 64) (s' : State)
     (hcomp : JitEmit.compileWithLayout env.prog haddr um false = .ok (c.code, locs, ex))
@@ -49,7 +63,7 @@ theorem C03_x86 (env : Env) (haddr : Nat → Option Nat) (um : Bool) (c : X86.Cf
     (hpkt : m.mem.bytes.size = 0 → m.mem.base = 0) (hum : um = false → m.mbuff.bytes.size = 0)
     (hindep : RegIndep env m fuel)
     (hint : Interp.run env (Interp.init m) fuel = .done r0 s') :
-    ∃ k σ', X86.run c σ k = .done r0 σ' ∧ MemRel σ'.mem s'.mem ∧
+    ∃ k σ', X86.run c σ k = .done r0 σ' ∧ DataRel σ'.mem s'.mem ∧
       σ'.get 3 = σ.get 3 ∧ σ'.get 5 = σ.get 5 ∧ σ'.get 13 = σ.get 13 ∧ σ'.get 14 = σ.get 14 ∧ σ'.get 15 = σ.get 15 ∧
       (σ'.get X86.RSP).toNat = (σ.get X86.RSP).toNat + 8 := by
   -- the register-transfer semantics agree with the interpreter (C03_run)
@@ -74,8 +88,7 @@ theorem C03_x86 (env : Env) (haddr : Nat → Option Nat) (um : Bool) (c : X86.Cf
   have hv := compile_validates_partial env.prog haddr um false c.code locs ex hcomp hh ht hsz hp
   obtain ⟨k, σ', hrun, hmem, hrest⟩ := jit_call_to_return env haddr um c { pcLocs := locs, exitLoc := ex } m σ fuel r0 b hv hcov hbase hsent he hjb
   refine ⟨k, σ', hrun, ?_, hrest⟩
-  rw [← hsame, ← hbm]
-  exact hmem
+  exact DataRel.of_memRel hmem ⟨by rw [hbm.1, hsame], by rw [hbm.2.1, hsame], by rw [hbm.2.2, hsame]⟩
 
 /-- the same for programs the default verifier accepts: its verdict supplies the facts about jump targets and program
     length (`targetsOk_of_check`); what remains are the scope (`Covered`, no F7 instruction in any slot), the size of the
@@ -92,7 +105,7 @@ theorem C03_x86_accepted (env : Env) (haddr : Nat → Option Nat) (um : Bool) (c
     (hpkt : m.mem.bytes.size = 0 → m.mem.base = 0) (hum : um = false → m.mbuff.bytes.size = 0)
     (hindep : RegIndep env m fuel)
     (hint : Interp.run env (Interp.init m) fuel = .done r0 s') :
-    ∃ k σ', X86.run c σ k = .done r0 σ' ∧ MemRel σ'.mem s'.mem ∧
+    ∃ k σ', X86.run c σ k = .done r0 σ' ∧ DataRel σ'.mem s'.mem ∧
       σ'.get 3 = σ.get 3 ∧ σ'.get 5 = σ.get 5 ∧ σ'.get 13 = σ.get 13 ∧ σ'.get 14 = σ.get 14 ∧ σ'.get 15 = σ.get 15 ∧
       (σ'.get X86.RSP).toNat = (σ.get X86.RSP).toNat + 8 :=
   have ht := targetsOk_of_check env.prog haddr hacc
@@ -117,7 +130,7 @@ def ClobIndep (env : Env) (m : Memory) (fuel : Nat) : Prop :=
   ∀ (clob : Nat → Nat → BitVec 64) (s : State), s.pc = 0 → s.frames = [] → s.mem = m → s.log = [] →
     s.reg[1]? = (Interp.init m).reg[1]? → s.reg[10]? = (Interp.init m).reg[10]? →
     ∀ r0 a, EngineSem.jitRun env (Interp.init m) fuel = .done r0 a →
-      ∃ b, jitRunC clob env s fuel = .done r0 b ∧ b.mem = a.mem ∧ b.log = a.log
+      ∃ b, jitRunC clob env s fuel = .done r0 b ∧ SameData b.mem a.mem ∧ b.log = a.log
 
 /-- **machine code = interpreter, with helper calls** (and C08's clauses for the x86-64 JIT).  For an accepted program
     whose instructions are covered, `exit` or helper calls, compiled by the emitter model against helper addresses at
@@ -138,7 +151,7 @@ theorem C03_x86_calls (env : Env) (haddr : Nat → Option Nat) (um : Bool) (c : 
     (hpkt : m.mem.bytes.size = 0 → m.mem.base = 0) (hum : um = false → m.mbuff.bytes.size = 0)
     (hindep : ClobIndep env m fuel)
     (hint : Interp.run env (Interp.init m) fuel = .done r0 s') :
-    ∃ k σ', X86.run c σ k = .done r0 σ' ∧ MemRel σ'.mem s'.mem ∧
+    ∃ k σ', X86.run c σ k = .done r0 σ' ∧ DataRel σ'.mem s'.mem ∧
       σ'.get 3 = σ.get 3 ∧ σ'.get 5 = σ.get 5 ∧ σ'.get 13 = σ.get 13 ∧ σ'.get 14 = σ.get 14 ∧ σ'.get 15 = σ.get 15 ∧
       (σ'.get X86.RSP).toNat = (σ.get X86.RSP).toNat + 8 ∧
       σ'.log.map (·.2) = s'.log.map (·.2) ∧ σ'.misaligned = σ.misaligned := by
@@ -163,7 +176,55 @@ theorem C03_x86_calls (env : Env) (haddr : Nat → Option Nat) (um : Bool) (c : 
   obtain ⟨k, σ', hrun, hmem, h3, h5, h13, h14, h15, hrsp, hlg, hmis⟩ :=
     jit_call_to_returnC env haddr um c { pcLocs := locs, exitLoc := ex } m σ fuel r0 b hv hcov hext hbase hsent he hlog halign hjb
   refine ⟨k, σ', hrun, ?_, h3, h5, h13, h14, h15, hrsp, ?_, hmis⟩
-  · rw [← hsame, ← hbm]; exact hmem
+  · exact DataRel.of_memRel hmem ⟨by rw [hbm.1, hsame], by rw [hbm.2.1, hsame], by rw [hbm.2.2, hsame]⟩
+  · rw [hlg, hbl, hlogs]
+
+/-- **the fixed-metadata VM** (`EbpfVmFixedMbuff`: the prologue itself stores the packet pointer and the packet end at
+    the two configured offsets of the VM's buffer).  Entered with the buffer in rdi, the packet in rdx/rcx and the
+    offsets in r8/r9 (`EntryFixed`), the machine behaves as the interpreter does on the memory in which
+    `EbpfVmFixedMbuff::execute_program` has written those two pointers (`preparedMem` = `Vm.fixedPrepare`): same value,
+    same packet / buffer / registered ranges afterwards, same helper calls, none misaligned.  (C09's fixed-metadata
+    clause for the x86-64 JIT: on every execution the buffer holds the two addresses, for every pair of offsets inside
+    the buffer — overlapping or not — and every packet.) -/
+theorem C03_x86_fixed (env : Env) (haddr : Nat → Option Nat) (c : X86.Cfg) (locs : Array Nat) (ex : Nat)
+    (m : Memory) (d e : Nat) (σ : X86.St) (fuel : Nat) (r0 : BitVec 64) (s' : State)
+    (hacc : Verifier.check env.prog = .ok)
+    (hcomp : JitEmit.compileWithLayout env.prog haddr true true = .ok (c.code, locs, ex))
+    (hext : ExtOk c env haddr) (hsz : c.code.size < 2 ^ 31)
+    (hcov : CoveredC env.prog) (hl : NoLocalCall env.prog) (h7 : NoF7 env.prog)
+    (hbase : c.codeBase + c.code.size < 2 ^ 63)
+    (hsent : c.retSentinel.toNat < c.codeBase ∨ c.codeBase + c.code.size ≤ c.retSentinel.toNat)
+    (he : EntryFixed c m d e σ) (hlog : σ.log = []) (halign : m.stack.base % 16 = 0)
+    (hindep : ClobIndep env (preparedMem m d e) fuel)
+    (hint : Interp.run env (Interp.init (preparedMem m d e)) fuel = .done r0 s') :
+    ∃ k σ', X86.run c σ k = .done r0 σ' ∧ DataRel σ'.mem s'.mem ∧
+      σ'.get 3 = σ.get 3 ∧ σ'.get 5 = σ.get 5 ∧ σ'.get 13 = σ.get 13 ∧ σ'.get 14 = σ.get 14 ∧ σ'.get 15 = σ.get 15 ∧
+      (σ'.get X86.RSP).toNat = (σ.get X86.RSP).toNat + 8 ∧
+      σ'.log.map (·.2) = s'.log.map (·.2) ∧ σ'.misaligned = σ.misaligned := by
+  have hna : ∀ t, Interp.run env (Interp.init (preparedMem m d e)) fuel ≠ .err .unaligned t := by
+    intro t ht'; rw [hint] at ht'; cases ht'
+  have hrel := C03_run env (preparedMem m d e) fuel hl h7 hna
+  rw [hint] at hrel
+  obtain ⟨a, hja, hsame, hlogs⟩ : ∃ a, EngineSem.jitRun env (Interp.init (preparedMem m d e)) fuel = .done r0 a ∧ a.mem = s'.mem ∧ a.log = s'.log := by
+    cases hj : EngineSem.jitRun env (Interp.init (preparedMem m d e)) fuel with
+    | done r a =>
+      rw [hj] at hrel
+      obtain ⟨hr, hs⟩ := hrel
+      exact ⟨a, by rw [hr], hs.2.2.2.1, hs.2.2.2.2⟩
+    | err e a => rw [hj] at hrel; exact absurd hrel (by simp [ResultRel])
+    | panic => rw [hj] at hrel; exact absurd hrel (by simp [ResultRel])
+    | fault => rw [hj] at hrel; exact absurd hrel (by simp [ResultRel])
+    | timeout a => rw [hj] at hrel; exact absurd hrel (by simp [ResultRel])
+  obtain ⟨h1, h10⟩ := entryStateFixed_r1_r10 c m d e σ he
+  have hmemeq : (entryStateFixed m σ d e).mem = preparedMem m d e := by simp only [entryStateFixed, Interp.init]
+  obtain ⟨b, hjb, hbm, hbl⟩ := hindep c.clobber (entryStateFixed m σ d e) (by simp only [entryStateFixed, Interp.init])
+    (by simp only [entryStateFixed, Interp.init]) hmemeq (by simp only [entryStateFixed, Interp.init]) h1 h10 r0 a hja
+  have ht := targetsOk_of_check env.prog haddr hacc
+  have hv := compile_validates_partial env.prog haddr true true c.code locs ex hcomp hext.2 ht.1 hsz ht.2
+  obtain ⟨k, σ', hrun, hmem, h3, h5, h13, h14, h15, hrsp, hlg, hmis⟩ :=
+    jit_call_to_return_fixed env haddr c { pcLocs := locs, exitLoc := ex } m d e σ fuel r0 b hv hcov hext hbase hsent he hlog halign hjb
+  refine ⟨k, σ', hrun, ?_, h3, h5, h13, h14, h15, hrsp, ?_, hmis⟩
+  · exact DataRel.of_memRel hmem ⟨by rw [hbm.1, hsame], by rw [hbm.2.1, hsame], by rw [hbm.2.2, hsame]⟩
   · rw [hlg, hbl, hlogs]
 
 end Rbpf
